@@ -131,6 +131,10 @@ class LineHooks(Hooks):
                 base.cls is not None and hasattr(base.cls, "mro"):
             if attr == "__dict__":
                 return base.attrs
+            if attr == "_gfa" and self.repo.cls("Line") in base.cls.mro:
+                # a line the rule did not place in a Gfa is not connected
+                # (Line.__init__ sets _gfa = None)
+                return None
             if attr == "_refs" and self.repo.cls("Line") in base.cls.mro:
                 # every line has the dictionary of its back-references
                 return base.attrs.setdefault("_refs", {})
